@@ -3,6 +3,7 @@ package rag
 import (
 	"fmt"
 	"strings"
+	"unicode/utf8"
 )
 
 // SizeUnit defines the unit of measurement for chunk sizes
@@ -494,6 +495,12 @@ func findWordBoundaryNear(text string, targetPos int) int {
 		if text[i] == ' ' || text[i] == '\n' {
 			return i + 1
 		}
+	}
+
+	// No break opportunity in reach: cut at the target, but never inside a
+	// multi-byte character.
+	for targetPos > 0 && !utf8.RuneStart(text[targetPos]) {
+		targetPos--
 	}
 
 	return targetPos
